@@ -344,9 +344,6 @@ impl<'a, S: GraphSnapshot + 'a> Iterator for MatchOutVarLenIter<'a, S> {
                                     .snapshot
                                     .incoming_neighbors_erased(current_node, Some(*rel))
                                 {
-                                    if edge.src == edge.dst {
-                                        continue;
-                                    }
                                     push_edge(edge, edge.src, &mut self.stack);
                                 }
                             }
@@ -354,9 +351,6 @@ impl<'a, S: GraphSnapshot + 'a> Iterator for MatchOutVarLenIter<'a, S> {
                         (RelationshipDirection::RightToLeft, None) => {
                             for edge in self.snapshot.incoming_neighbors_erased(current_node, None)
                             {
-                                if edge.src == edge.dst {
-                                    continue;
-                                }
                                 push_edge(edge, edge.src, &mut self.stack);
                             }
                         }
